@@ -381,8 +381,23 @@ func c08ValRun(c *Ctx, mk func() any, cs c08ValCase, args []reflect.Value, count
 	if sx, ok := x.(stackage.Stack); ok {
 		lenBefore, capBefore = sx.Len(), sx.Cap()
 	}
+	argsBefore := c08ArgText(argsX)
 	callMethod(pw, cs.Method, argsY)
 	_, p := callMethod(pv, cs.Method, argsX)
+	if p == "" && !usesSelf {
+		// the same call once more: it now meets whatever the first one stored (e.g. a slot that already
+		// holds a value of the very type that is offered again)
+		callMethod(pw, cs.Method, argsY)
+		_, p = callMethod(pv, cs.Method, argsX)
+		if p != "" {
+			p = "(second identical call) " + p
+		}
+	}
+	if p == "" && !usesSelf {
+		if after := c08ArgText(argsX); after != argsBefore {
+			c.Violation("argument-modified:"+cs.Method, fmt.Sprintf("%s changed a value the caller handed in (the caller's slice / map / array): before %s after %s", desc, argsBefore, after), cs, len(desc))
+		}
+	}
 	if sx, ok := x.(stackage.Stack); ok && p == "" && usesSelf && cs.Method == "Transfer" && !strings.Contains(cs.Args, "Condition over") {
 		// a stack transferred onto itself holds its elements twice if they fit, and is unchanged otherwise
 		want := lenBefore
@@ -409,6 +424,28 @@ func c08ValRun(c *Ctx, mk func() any, cs c08ValCase, args []reflect.Value, count
 		c.Nontrivial(desc)
 		c.Outcome(cs.Method)
 	}
+}
+
+// c08ArgText renders the arguments as the caller sees them (slices, maps and arrays by content).
+func c08ArgText(args []reflect.Value) string {
+	var p []string
+	for _, a := range args {
+		if !a.IsValid() {
+			p = append(p, "<invalid>")
+			continue
+		}
+		switch a.Kind() {
+		case reflect.Slice, reflect.Map, reflect.Array:
+			txt := ""
+			if noPanic(func() { txt = fmt.Sprintf("%#v", a.Interface()) }) != "" {
+				txt = "<unprintable>"
+			}
+			p = append(p, txt)
+		default:
+			p = append(p, a.Type().String())
+		}
+	}
+	return strings.Join(p, " | ")
 }
 
 // c08Self substitutes the receiver for the selfRef placeholders.
